@@ -1,3 +1,4 @@
+\* X02 non-vacuity: deviation "no-grandchildren" must violate DownwardClosed
 SPECIFICATION Spec
 CONSTANTS
   MaxNodes = 3
